@@ -18,6 +18,7 @@ import (
 	"verifharness/engines/c08"
 	"verifharness/engines/c10"
 	"verifharness/engines/c11"
+	"verifharness/engines/c12"
 	"verifharness/engines/c13"
 	"verifharness/engines/c14"
 	"verifharness/engines/c15"
@@ -39,6 +40,7 @@ var engines = map[string]func(*gen.Ctx) error{
 	"c08": c08.Run,
 	"c10": c10.Run,
 	"c11": c11.Run,
+	"c12": c12.Run,
 	"c13": c13.Run,
 	"c14": c14.Run,
 	"c15": c15.Run,
